@@ -1,6 +1,7 @@
 #!/bin/bash
 # usage: tools/mutant.sh <patch.diff> <tier> <PROP> [PROP...]
-# Applies a patch to a scratch copy of /repo/jellyfysh (never to /repo) and runs the given checks against it.
+# Applies a patch to a scratch copy of /repo/jellyfysh (never to /repo), runs the given checks against it and replays
+# the first reported violation of each in a fresh process.
 set -u
 patch="$(realpath "$1")"; tier="$2"; shift 2
 work="$(mktemp -d /tmp/jfmut-XXXXXX)"
@@ -14,4 +15,9 @@ for p in "$@"; do
   code=$?
   echo "== $p exit=$code $(grep -c '^VIOLATION' "$work/out.$p") violation lines; $(grep -m1 '^violation:' "$work/out.$p" | cut -c1-400)"
   tail -1 "$work/out.$p" | cut -c1-300
+  rp="$(grep -m1 '^VIOLATION' "$work/out.$p" | sed 's/.*replay=//')"
+  if [ -n "$rp" ] && [ "${NO_REPLAY:-0}" != 1 ]; then
+    VERIF_REPO="$work/repo" timeout 1200 /verif/check "$p" --replay "$rp" 2>&1 | grep -m1 "REPRODUCED\|NOT REPRODUCED" | cut -c1-160
+    python3 -c "import json,sys; r=json.load(open('$rp')); print('   replay: minimised=%s reexecutions=%s' % (r['minimised'], r['minimisation_reexecutions']))"
+  fi
 done
